@@ -37,6 +37,10 @@ def jobs(ctx, props):
         out.append((name + '/explicit+reload', E[name], ['A'], props,
                     {'reqs': 2, 'mode': 'explicit', 'max_workers': 1 if quick else 2, 'outcomes': ('success',),
                      'revs': ('r1',), 'life': 'reload', 'max_life': 1 if quick else 2}))
+    # target names where one begins the other, both executing at once
+    for name in ('single', 'chain2'):
+        out.append((name + '/prefix-targets', E[name], ['A', 'AB'], props,
+                    {'reqs': 2, 'mode': 'explicit', 'max_workers': 2, 'outcomes': ('success', 'failure')}))
     # one transient data-base outage during a dispatch (see C04)
     for name in ('single', 'pair'):
         out.append((name + '/db-outage', E[name], ['A', 'B'], props, {'reqs': 2, 'faults': 1}))
